@@ -6,7 +6,7 @@ import json
 import os
 import shutil
 
-for d in sorted(glob.glob("/tmp/seed-C*/out/[0-9]") + glob.glob("/tmp/seed3-C*/out/[0-9]") + glob.glob("/tmp/seed4-C*/out/[0-9]") + glob.glob("/tmp/seed5-C*/out/[0-9]") + glob.glob("/tmp/seed6-C*/out/[0-9]") + glob.glob("/tmp/seed7-C*/out/[0-9]") + glob.glob("/tmp/seed8-C*/out/[0-9]") + glob.glob("/tmp/seed9-C*/out/[0-9]")):
+for d in sorted(glob.glob("/tmp/seed-C*/out/[0-9]") + glob.glob("/tmp/seed3-C*/out/[0-9]") + glob.glob("/tmp/seed4-C*/out/[0-9]") + glob.glob("/tmp/seed5-C*/out/[0-9]") + glob.glob("/tmp/seed6-C*/out/[0-9]") + glob.glob("/tmp/seed7-C*/out/[0-9]") + glob.glob("/tmp/seed8-C*/out/[0-9]") + glob.glob("/tmp/seed9-C*/out/[0-9]") + glob.glob("/tmp/seed11-C*/out/[0-9]")):
     w3 = d.startswith("/tmp/seed3-")
     w4 = d.startswith("/tmp/seed4-")
     w5 = d.startswith("/tmp/seed5-")
